@@ -71,7 +71,7 @@ theorem lookup_foldl_addCycles (rows : List LogRow) (t : List (String × Nat)) (
   | cons r rs ih =>
     simp only [List.foldl_cons, ih, lookup_addCycles, firstNonzero, List.find?_cons]
     by_cases h : (keyOfRow r == k && r.cycles != 0) = true
-    · simp [h, Option.or_assoc]
+    · simp [h]
     · simp [h]
 
 theorem getCycles_buildTable (rows : List LogRow) (k : String) :
@@ -104,7 +104,7 @@ theorem lookup_foldl_addCat (rows : List LogRow) (m : List (String × String)) (
   | cons r rs ih =>
     simp only [List.foldl_cons, ih, lookup_addCat, firstCat, List.find?_cons]
     by_cases h : (keyOfRow r == k) = true
-    · simp [h, Option.or_assoc]
+    · simp [h]
     · simp [h]
 
 theorem catOfKernel_buildCatMap (rows : List LogRow) (k : String) (hk : k ≠ "other") :
